@@ -89,6 +89,8 @@ Definition is_colon (t : option etok) : bool := match t with Some EColon => true
 Definition is_eword (t : option etok) : bool := match t with Some (EWord _) => true | _ => false end.
 Fixpoint join (sep : list etok) (l : list (list etok)) : list etok :=
   match l with [] => [] | [x] => x | x :: r => x ++ sep ++ join sep r end.
+(* `if tokens.current.kind == TOKEN_COMMA: next(tokens)` *)
+Definition skip_comma (ts : list etok) : list etok := match ts with EComma :: r => r | _ => ts end.
 Definition ends_q (s : str) : bool := match rev s with 63%N :: _ => true | _ => false end.     (* word.endswith('?') *)
 
 Section Syntax.
@@ -327,7 +329,7 @@ Section Syntax.
     match snd i with
     | EIn :: r =>
         do it <- pprim r;
-        let r2 := match snd it with EComma :: r' => r' | r' => r' end in
+        let r2 := skip_comma (snd it) in                                  (* leading commas are OK *)
         parse_loop_args (S (length r2)) {| lp_id := fst i; lp_iter := fst it; lp_limit := None; lp_offset := None; lp_cols := None; lp_rev := false |} r2
     | _ => Err ESyntax
     end.
@@ -337,7 +339,7 @@ Section Syntax.
     match fuel with
     | O => OutOfFuel
     | S f =>
-        let ts1 := match ts with EComma :: r => r | _ => ts end in      (* token = next(); a comma is skipped once *)
+        let ts1 := skip_comma ts in                                     (* token = next(); a comma is skipped once *)
         match ts1 with
         | [] => Ok (rev acc)
         | EWord w :: EColon :: r =>
@@ -347,7 +349,7 @@ Section Syntax.
         end
     end.
   Definition parse_kwargs (ts : list etok) : res (list (str * prim)) :=
-    let ts0 := match ts with EComma :: r => r | _ => ts end in          (* leading commas are OK *)
+    let ts0 := skip_comma ts in                                         (* leading commas are OK *)
     parse_kwargs_loop (S (length ts0)) [] ts0.
 
   (* PositionalArgument.parse (cycle) *)
@@ -355,7 +357,7 @@ Section Syntax.
     match fuel with
     | O => OutOfFuel
     | S f =>
-        let ts1 := match ts with EComma :: r => r | _ => ts end in
+        let ts1 := skip_comma ts in
         match ts1 with
         | [] => Ok (rev acc)
         | _ => do p <- pprim ts1; parse_posargs f (fst p :: acc) (snd p)
@@ -507,6 +509,31 @@ Definition wf_payload (y : payload) : bool :=
   | YIdent _ => true
   end.
 
+(* does the nil / null literal occur (the recorded finding is the only reason a parsed tree may fail to be well formed) *)
+Fixpoint nil_free_prim (p : prim) : bool :=
+  match p with PNil => false | PRange a b => nil_free_prim a && nil_free_prim b | _ => true end.
+Definition nil_free_arg (a : arg) : bool := match a with APos p | AKw _ p => nil_free_prim p end.
+Definition nil_free_filters (fs : list filter) : bool := forallb (fun f => forallb nil_free_arg (f_args f)) fs.
+Definition nil_free_expr (e : expr) : bool :=
+  match e with
+  | XFilt e => nil_free_prim (fe_left e) && nil_free_filters (fe_filters e)
+  | XTern e _ alt tail =>
+      nil_free_prim (fe_left e) && nil_free_filters (fe_filters e)
+      && match alt with Some (a, fs) => nil_free_prim a && nil_free_filters fs | None => true end && nil_free_filters tail
+  end.
+Definition nil_free_opt (o : option prim) : bool := match o with Some p => nil_free_prim p | None => true end.
+Definition nil_free (y : payload) : bool :=
+  match y with
+  | YExpr e | YAssign _ e => nil_free_expr e
+  | YLoop l => nil_free_prim (lp_iter l) && nil_free_opt (lp_limit l) && nil_free_opt (lp_offset l) && nil_free_opt (lp_cols l)
+  | YCase p => nil_free_prim p
+  | YWhen l => forallb nil_free_prim l
+  | YCycle g a => nil_free_opt g && forallb nil_free_prim a
+  | YInclude i => nil_free_prim (in_name i) && forallb (fun a => nil_free_prim (snd a)) (in_args i)
+  | YRender r => forallb (fun a => nil_free_prim (snd a)) (rd_args r)
+  | YIdent _ => true
+  end.
+
 (* ================= the serialiser before the fixes (witnesses) ================= *)
 (* C04-2: identifiers were written as they are *)
 Definition print_ident_old (s : str) : list etok := [word_tok s].
@@ -546,3 +573,15 @@ Definition run_xprint_eqb (a b : option (list etok)) : bool := option_eqb (list_
 (* the serialiser alone, from the tree the harness generated *)
 Record ycase := { yc_payload : payload }.
 Definition run_yprint (c : ycase) : list etok := print_payload expr_is_prop (yc_payload c).
+(* every tree the parser builds from a source without the nil literal is well formed (checked on the generated sources;
+   the tokens must be what the lexer can produce: no keyword as a word, no string with both kinds of quote) *)
+Definition run_xwf (c : xcase) : bool :=
+  match parse_payload (xc_kind c) (xc_toks c) with
+  | Ok y => wf_payload y || negb (nil_free y)
+  | _ => true
+  end.
+(* the three observations on a source in one pass: str(); whether the second round gives the same tokens (compared only where the
+   implementation round-trips: [snd o]); well-formedness of the parsed tree *)
+Definition run_xall (c : xcase) : option (list etok) * option (list etok) * bool := (run_xprint c, run_xreprint c, run_xwf c).
+Definition xall_eqb (m : option (list etok) * option (list etok) * bool) (o : option (list etok) * bool) : bool :=
+  run_xprint_eqb (fst (fst m)) (fst o) && (if snd o then run_xprint_eqb (snd (fst m)) (fst o) else true) && snd m.
